@@ -39,7 +39,8 @@ CHECK = _C15(
     nontrivial=nontrivial,
     deciding=["oracle.C15.roundtrip"],
     profile=("stage", "table"),
-    classes=[(c, max(50, q // 5), max(500, t // 5), p) for c, q, t, p in GEN_CLASSES],
+    classes=[(c, max(50, q // 5), max(500, t // 5), p) for c, q, t, p in GEN_CLASSES
+             if c != "names_collide"],  # names restricted to those the front ends / generator produce
     use_byteflow=True,
     extra_assumptions=["graphs with AST statement payloads are outside the statement's "
                        "enumeration (regions, synthetic assignment/branching blocks, bytecode blocks)"],
@@ -78,6 +79,7 @@ import random as _random
 from .. import core as _core
 from ..attach import run_oracle as _run_oracle
 from .base import ShardAcc as _ShardAcc
+from . import predeclared as _pre
 
 _plan1 = _plan
 _run1 = CHECK.run_shard
@@ -91,15 +93,23 @@ def _plan2(tier, seed):
     per = 250 if quick else 3000
     for start in range(0, total, per):
         out.append({"kind": "flat_rand", "seed": seed, "start": start, "count": per, "tier": tier})
+    # graphs that arrive with back edges declared and are restructured afterwards
+    out += _pre.plan(tier, seed, 400, 12000)
     return out
 
 
-def _flat_case(gd, acc, payload, chain):
+def _flat_case(gd, acc, payload, chain, be=None):
     from .. import drivers
     from ..oracles.serial import check_roundtrip
 
     ctx = _core.set_ctx(_core.Ctx(None))
-    scfg = drivers.make_scfg(gd, payload, drivers.how_for(gd))
+    scfg = drivers.make_scfg(gd, payload, drivers.how_for(gd), backedges=be)
+    if be:
+        acc.counters["flat_digraphs.with_declared_backedges"] += 1
+        if any(len(v) > 1 and [t for t in gd[k] if t in v] != list(v) for k, v in be.items()):
+            acc.counters["flat_digraphs.backedge_order_differs_from_targets"] += 1
+    if any(len(set(v)) != len(v) for v in gd.values()):
+        acc.counters["flat_digraphs.with_parallel_arcs"] += 1
     ctx.hit("oracle.C15.roundtrip")
     _run_oracle(ctx, "C15.roundtrip_flat", check_roundtrip, scfg, chain)
     preds = {t for v in gd.values() for t in v}
@@ -107,12 +117,17 @@ def _flat_case(gd, acc, payload, chain):
     acc.counters["flat_digraphs"] += 1
     acc.counters["flat_digraphs.entries_%s" % min(len(entries), 2)] += 1
     case = {"kind": "flatdigraph", "g": gd, "payload": payload}
+    if be:
+        case["backedges"] = {k: list(v) for k, v in be.items()}
     acc.add_ctx(ctx, case, nontrivial_hash=_core.graph_hash(gd) if any(gd.values()) else None,
                 sample=(acc.evaluations % 997 == 0))
 
 
 def _run2(spec):
     k = spec["kind"]
+    if k == "predeclared" or (k == "single" and spec["case"].get("kind") == "predeclared"):
+        attach.OPTS["serial_chain"] = 1 if spec.get("tier", "quick") == "quick" else 3
+        return _pre.run_shard(spec, "C15", CHECK.profile)
     if k not in ("flat_exh", "flat_rand") and not (
             k == "single" and spec["case"].get("kind") == "flatdigraph"):
         return _run1(spec)
@@ -122,13 +137,21 @@ def _run2(spec):
     chain = 1 if spec.get("tier", "quick") == "quick" else 3
     if k == "single":
         c = spec["case"]
-        _flat_case({a: tuple(b) for a, b in c["g"].items()}, acc, c.get("payload", "basic"), chain)
+        _flat_case({a: tuple(b) for a, b in c["g"].items()}, acc, c.get("payload", "basic"), chain,
+                   {a: tuple(b) for a, b in (c.get("backedges") or {}).items()} or None)
     elif k == "flat_exh":
         # every digraph on n nodes with out-degree <= 2 (ordered, no duplicate targets)
         names = [str(i) for i in range(spec["n"])]
         opts = [()] + [(a,) for a in names] + [p for p in _it.permutations(names, 2)]
         for combo in _it.product(opts, repeat=len(names)):
-            _flat_case(dict(zip(names, combo)), acc, "basic", chain)
+            gd = dict(zip(names, combo))
+            _flat_case(gd, acc, "basic", chain)
+            # the same graph with every arc that does not go forward declared
+            # a back edge, listed in the reverse of the target order
+            be = {k: tuple(t for t in reversed(v) if t <= k) for k, v in gd.items()}
+            be = {k: v for k, v in be.items() if v}
+            if be:
+                _flat_case(gd, acc, "basic", chain, be)
         acc.counters["flat_exhaustive.n%d" % spec["n"]] += acc.evaluations
     else:
         for i in range(spec["start"], spec["start"] + spec["count"]):
@@ -138,10 +161,22 @@ def _run2(spec):
             if rng.random() < 0.3:
                 rng.shuffle(names)
             gd = {}
+            dup = rng.random() < 0.2
             for nm in names:
-                d = rng.choice([0, 1, 1, 2, 2])
-                gd[nm] = tuple(rng.sample(names, min(d, n)))
-            _flat_case(gd, acc, rng.choice(["basic", "bytecode"]), chain)
+                d = rng.choice([0, 1, 1, 2, 2, 3] if dup else [0, 1, 1, 2, 2])
+                gd[nm] = (tuple(rng.choice(names) for _ in range(d)) if dup
+                          else tuple(rng.sample(names, min(d, n))))
+            be = None
+            if rng.random() < 0.5:
+                # declared back edges: any subset of a block's targets, in any order
+                be = {}
+                for nm in names:
+                    ts = list(dict.fromkeys(gd[nm]))
+                    pick = [t for t in ts if rng.random() < 0.4]
+                    rng.shuffle(pick)
+                    if pick:
+                        be[nm] = tuple(pick)
+            _flat_case(gd, acc, rng.choice(["basic", "bytecode"]), chain, be or None)
     return acc.result()
 
 
